@@ -198,6 +198,23 @@ def generate(repo, out_path):
     except Exception as ex:  # noqa: BLE001
         errors.append(f"op tables: {ex}")
         text += "Definition src_inplace_ops : unit := tt.\n"
+    # in-place arithmetic (x *= y, x.mul_(y), out= arguments) anywhere in the op implementations and kernels: a result computed in place
+    # may alias an operand (Tensor.to() returns self when nothing changes), i.e. a module's scale buffer
+    try:
+        aug = []
+        for rel in ("tensor/qbytes_ops.py", "tensor/qbits/qbits_ops.py", "tensor/qtensor_func.py", "library/qbytes_mm.py", "library/ops.py", "tensor/qactivation.py", "tensor/qweight.py"):
+            tr = ast.parse(open(os.path.join(q, rel)).read())
+            for node in ast.walk(tr):
+                if isinstance(node, ast.AugAssign):
+                    aug.append(f"{rel}: {ast.unparse(node)}")
+                elif isinstance(node, ast.Call) and isinstance(node.func, ast.Attribute) and node.func.attr.endswith("_") and not node.func.attr.startswith("_") and node.func.attr not in ("requires_grad_",):
+                    aug.append(f"{rel}: .{node.func.attr}()")
+                elif isinstance(node, ast.Call) and any(k.arg == "out" for k in node.keywords):
+                    aug.append(f"{rel}: out= in {ast.unparse(node.func)}")
+        text += "Definition src_op_inplace_arith : list string := [" + "; ".join(coq_str(e) for e in sorted(set(aug))) + "].\n"
+    except Exception as ex:  # noqa: BLE001
+        errors.append(f"in-place scan: {ex}")
+        text += "Definition src_op_inplace_arith : unit := tt.\n"
     for rel, qual, name in PURE_FUNCS:
         try:
             tree = ast.parse(open(os.path.join(q, rel)).read())
